@@ -80,6 +80,15 @@ fn check_msg(m: &Msg) -> CaseResult {
         }
         Err(p) => return fail("entry=sm3_hash outcome=panic", format!("len={} panic={}", m.len, p)),
     }
+    if m.len <= 4096 {
+        // the same bytes as a window at an odd offset of a larger buffer: the digest may not depend on where the message lives
+        let off = 1 + (m.seed % 7) as usize;
+        let mut buf = vec![0xC3u8; off];
+        buf.extend_from_slice(&data);
+        buf.push(0x3C);
+        let d2 = catch(|| gm_sm3::sm3_hash(&buf[off..off + data.len()])).map_err(|p| Fail { key: "entry=sm3_hash outcome=panic".into(), detail: p })?;
+        ensure!(d2 == want, "entry=sm3_hash outcome=depends-on-buffer-alignment", "len={} at byte offset {} of a buffer: {}", m.len, off, hex::encode(d2));
+    }
     pass(nontrivial(m.len), len_class(m.len))
 }
 
